@@ -36,8 +36,8 @@ Section Facts2.
     - destruct (import_reg (reg s) k j) as [reg'|] eqn:Ei; [|exact Hi].
       pose proof (import_reg_keeps _ _ _ _ _ _ Ei Hi) as Hk.
       destruct (c_kind c); [|exact Hi|];
-        (destruct (file_path path_of ext_of j (c_fmt c)); [|exact Hi|exact Hi];
-         destruct (aget N.eqb (recs s) k); cbn [fst reg]; [exact Hi|exact Hk]).
+        (destruct (aget N.eqb (recs s) k); [exact Hi|];
+         destruct (file_path path_of ext_of j (c_fmt c)); cbn [fst reg]; [exact Hk|exact Hi|exact Hi]).
     - destruct (c_kind c); [|exact Hi|];
         (destruct (aget N.eqb (recs src) k) as [r0|]; [|exact Hi];
          destruct (aget N.eqb (reg src) k) as [j|]; [|exact Hi];
@@ -59,16 +59,20 @@ Section Facts2.
     unfold Datastore.run. cbn [fold_left]. apply IH; [apply identity_step; assumption|exact Hh].
   Qed.
 
-  (* a refused operation changes nothing -- except the refused re-ingest *)
-  Lemma refused_noop_partial_p : forall c s x s' e,
-    step c s x = (s', Refused e) -> reingest s x = false -> s' = s.
+  (* a refused operation changes nothing -- WITHOUT exception since commit 2da36a1 *)
+  Lemma refused_noop_p : forall c s x s' e, step c s x = (s', Refused e) -> s' = s.
   Proof.
-    intros c s x s' e H Hre.
-    destruct x as [k j o|mv k j b|src k|tag k|tag k|purge ids]; cbn [Datastore.step Datastore.reingest] in *;
+    intros c s x s' e H.
+    destruct x as [k j o|mv k j b|src k|tag k|tag k|purge ids]; cbn [Datastore.step] in *;
       repeat match type of H with
              | context [match ?t with _ => _ end] => destruct t eqn:?
              end; inversion H; subst; try reflexivity; try discriminate.
   Qed.
+
+  (* the earlier, weaker form (kept under its name: it still holds) *)
+  Lemma refused_noop_partial_p : forall c s x s' e,
+    step c s x = (s', Refused e) -> reingest s x = false -> s' = s.
+  Proof. intros c s x s' e H _. exact (refused_noop_p c s x s' e H). Qed.
 End Facts2.
 
 (* ---- refutations on the executable instance (payloads 1 and 2, sizes 7 and 13 bytes) ---------------- *)
@@ -99,16 +103,26 @@ Lemma get_wrong_content_refuted_p :
     /\ cget c (crun tbl c (empty cobj cbytes) h) id = Got 2%N.
 Proof. exists [(0, 1, 7%Z); (0, 2, 7%Z)]%N, wit_cfg, wit_collision, 1%N. vm_compute. split; reflexivity. Qed.
 
-(* the refused re-ingest is not a no-op: the stored artifact is gone afterwards *)
-Lemma refused_reingest_refuted_p :
+(* WITHOUT the fix of commit 2da36a1 (model variant step_unfixed) the refused re-ingest is not a no-op: the stored
+   artifact is gone afterwards *)
+Definition cstep_unfixed (tbl : list (N * N * Z)) := step_unfixed cobj cbytes (c_enc tbl) c_dec c_size c_path_of c_ext.
+
+Lemma refused_noop_refuted_without_fix_p :
   exists c s x s' e id o,
-    cstep wit_sizes c s x = (s', Refused e) /\ cget c s id = Got o /\ cget c s' id = Fail NotFound
+    cstep_unfixed wit_sizes c s x = (s', Refused e) /\ s' <> s /\ cget c s id = Got o /\ cget c s' id = Fail NotFound
     /\ held cobj cbytes c s' id = true.
 Proof.
   exists wit_cfg, (crun wit_sizes wit_cfg (empty cobj cbytes) [cPut 1%N id_CamA 1%N]),
          (cIngest false 1%N id_CamA (0%N, 2%N, 13%Z)).
-  eexists. exists Conflict, 1%N, 1%N. vm_compute. repeat split; reflexivity.
+  eexists. exists Conflict, 1%N, 1%N. vm_compute. repeat split; try reflexivity. discriminate.
 Qed.
+
+(* with the fix the same operation on the same state is refused and returns the identical state *)
+Lemma reingest_refused_intact_p :
+  let s := crun wit_sizes wit_cfg (empty cobj cbytes) [cPut 1%N id_CamA 1%N] in
+  cstep wit_sizes wit_cfg s (cIngest false 1%N id_CamA (0%N, 2%N, 13%Z)) = (s, Refused Conflict)
+  /\ cget wit_cfg s 1%N = Got 1%N.
+Proof. vm_compute. split; reflexivity. Qed.
 
 (* the guard is satisfiable by a history that uses every operation (non-vacuity) *)
 Definition id_B := mkIdent "dtD" [("instrument", "CamB"); ("detector", "1"); ("detector.full_name", "S0")] "u/r2".
